@@ -1,5 +1,6 @@
 import SpoxModel.Lemmas.Ctx
 import SpoxModel.Generated.CtxIR
+import SpoxModel.Generated.CtxWrites
 /-!
 # C16 — scoped settings are restored on every exit from their block
 
@@ -71,9 +72,65 @@ theorem inside_in_force (M : Managers) (hM : M.Good) (which : Fin 3) (arg : Nat)
       exec which arg (fun _ => body ⟨setG w.glob which arg, w.log⟩) (M.ir which) ⟨w, 0⟩ := by
   rcases goodShape_cases (hM which) with h | h <;> rw [h] <;> simp [shapeA, shapeB, exec, execStmt]
 
+/-- **Whatever the body does** — including switching the block's own setting with the public non-scoped
+    setter, any number of times — on exit (normal or by an exception) the block's own setting has its value
+    from before the block, and the other two settings are exactly as the body left them (the manager
+    touches nothing else). The body is an arbitrary function of the world. -/
+theorem own_setting_restored_any_body (M : Managers) (hM : M.Good) (which : Fin 3) (arg : Nat)
+    (body : World → World × Outcome) (w : World) :
+    (exec which arg body (M.ir which) ⟨w, 0⟩).1.world.glob which = w.glob which ∧
+    (∀ j, j ≠ which → (exec which arg body (M.ir which) ⟨w, 0⟩).1.world.glob j
+        = (body ⟨setG w.glob which arg, w.log⟩).1.glob j) ∧
+    (exec which arg body (M.ir which) ⟨w, 0⟩).2 = (body ⟨setG w.glob which arg, w.log⟩).2 := by
+  rcases goodShape_cases (hM which) with h | h <;> rw [h] <;>
+    simp only [shapeA, shapeB, exec, execStmt] <;>
+    generalize body _ = r <;> obtain ⟨w', o⟩ := r <;> cases o <;> simp [setG]
+  all_goals (intro j hj; simp [hj])
+
+/-- For the managers as they are in /repo now. -/
+theorem settings_restored_any_body (which : Fin 3) (arg : Nat) (body : World → World × Outcome) (w : World) :
+    (exec which arg body (Generated.CtxIR.managers.ir which) ⟨w, 0⟩).1.world.glob which = w.glob which :=
+  (own_setting_restored_any_body _ generated_good which arg body w).1
+
 /-- The shape on the pinned tree (no `try/finally`) does leak: the full statement is false of it. -/
 theorem pinned_counterexample :
     (runBlock ⟨fun _ => pinnedIR⟩ (.withB 0 7 [] true) ⟨fun _ => 1, []⟩).1.glob 0 = 7 := by decide
+
+/-! ## Nothing else writes the settings (tie G: inventory of write sites over all of `src/spox`) -/
+
+open Generated.CtxWrites in
+/-- The manager whose IR (`Generated.CtxIR`) accounts for writes of a setting. -/
+def managerOf : Nat → String
+  | 0 => "type_warning_level"
+  | 1 => "value_prop_backend"
+  | _ => "operator_overloading"
+
+/-- Where a setting is defined (file, scope). -/
+def homeOf : Nat → String × String
+  | 0 => ("src/spox/_node.py", "<module>")
+  | 1 => ("src/spox/_value_prop.py", "<module>")
+  | _ => ("src/spox/_var.py", "Var")
+
+/-- A write site the model accounts for: the defining assignment in the home module; an assignment or a
+    setter call inside the setting's own manager in `_future.py` (their order and `try/finally` shape is
+    what `generated_good` checks); the body of a public one-line setter function (`set_…`, not scoped by
+    design). Deletions, `setattr`, `global` re-bindings, by-value copies (`from … import NAME`), writes in
+    any other function or module, unparsable files: not accounted for. -/
+def siteCovered (s : Generated.CtxWrites.Site) : Bool :=
+  (s.kind == "default" && (s.file, s.scope) == homeOf s.setting)
+  || (s.file == "src/spox/_future.py" && (s.kind == "assign" || s.kind == "setter-call")
+        && s.scope == managerOf s.setting)
+  || (s.file == "src/spox/_future.py" && s.kind == "assign"
+        && Generated.CtxWrites.setters.contains s.scope)
+
+/-- Obligation: every site of `src/spox` that writes one of the three settings on this run is one the
+    managers' IR or the public setters account for. -/
+theorem write_sites_covered : ∀ s ∈ Generated.CtxWrites.sites, siteCovered s = true := by decide +kernel
+
+/-- Every setting has its defining assignment (so that the inventory did look at the right names). -/
+theorem write_sites_defaults :
+    ∀ i ∈ [0, 1, 2], (Generated.CtxWrites.sites.filter (fun s => s.setting == i && s.kind == "default")).length = 1 := by
+  decide +kernel
 
 /-- Non-vacuity: a nested, raising program over all three managers on the generated IR. -/
 example : (runTop Generated.CtxIR.managers
